@@ -41,6 +41,11 @@ pub enum Damage {
     TextDrop(usize),
     /// duplicate value token i
     TextInsert(usize),
+    /// duplicate value token i, the copy separated from the original by another ASCII whitespace
+    /// than a single space: 1 tab, 2 bare CR, 3 CR LF, 4 two spaces, 5 LF, 6 form feed
+    TextInsertSep { i: usize, sep: u8 },
+    /// remove value token i and separate its neighbours by that whitespace instead
+    TextDropSep { i: usize, sep: u8 },
     /// kind 0: axis+1, 1: axis-1, 2: append an axis of length 2, 3: drop the last axis
     ShapeEdit { kind: u8, axis: usize },
     /// surplus values after the value line: kind 0 duplicates the value line, 1 appends a line
@@ -117,6 +122,16 @@ pub fn all_damages(file: &FileSpec, img: &[u8]) -> Vec<Damage> {
         }
         for i in 0..n {
             v.push(Damage::TextInsert(i));
+        }
+        // the same edits with every other kind of ASCII whitespace at the edited place (all of
+        // them for small files, a rotating one for large files)
+        for i in 0..n {
+            for sep in 1..=6u8 {
+                if n <= 64 || (i + sep as usize) % 6 == 0 {
+                    v.push(Damage::TextInsertSep { i, sep });
+                    v.push(Damage::TextDropSep { i, sep });
+                }
+            }
         }
         for axis in 0..shape.len() {
             v.push(Damage::ShapeEdit { kind: 0, axis });
@@ -255,6 +270,36 @@ pub fn apply(file: &FileSpec, img: &[u8], d: &Damage) -> Option<Vec<u8>> {
             }
             Some(cut.to_vec())
         }
+        Damage::TextInsertSep { i, sep } | Damage::TextDropSep { i, sep } => {
+            let text = std::str::from_utf8(img).ok()?;
+            let (header, rest) = text.split_once('\n')?;
+            let tokens: Vec<&str> = rest.split_ascii_whitespace().collect();
+            if *i >= tokens.len() {
+                return None;
+            }
+            let ws = ["\t", "\r", "\r\n", "  ", "\n", "\x0c"][(*sep as usize - 1).min(5)];
+            let insert = matches!(d, Damage::TextInsertSep { .. });
+            if !insert && (tokens.len() < 3 || *i == 0 || *i + 1 >= tokens.len()) {
+                return None; // needs a neighbour on both sides
+            }
+            let mut body = String::new();
+            for (k, t) in tokens.iter().enumerate() {
+                if !insert && k == *i {
+                    continue;
+                }
+                if !body.is_empty() {
+                    // the separator in front of token k
+                    let special = if insert { false } else { k == *i + 1 };
+                    body.push_str(if special { ws } else { " " });
+                }
+                body.push_str(t);
+                if insert && k == *i {
+                    body.push_str(ws);
+                    body.push_str(t);
+                }
+            }
+            Some(format!("{header}\n{body}\n").into_bytes())
+        }
         Damage::TextDrop(_) | Damage::TextInsert(_) | Damage::ShapeEdit { .. } => {
             let text = std::str::from_utf8(img).ok()?;
             let (header, rest) = text.split_once('\n')?;
@@ -365,6 +410,8 @@ pub fn damage_class(file: &FileSpec, img: &[u8], d: &Damage) -> String {
         ),
         Damage::TextDrop(_) => "text_drop_token".into(),
         Damage::TextInsert(_) => "text_insert_token".into(),
+        Damage::TextInsertSep { sep, .. } => format!("text_insert_token/sep{sep}"),
+        Damage::TextDropSep { sep, .. } => format!("text_drop_token/sep{sep}"),
         Damage::ShapeEdit { kind, .. } => format!("text_shape_edit_{kind}"),
         Damage::NpyShapeEdit { kind, .. } => format!("npy_shape_edit_{}", ["axis_plus_one", "axis_minus_one", "extra_axis", "overflowing_product"][*kind as usize % 4]),
         Damage::TextAppend { kind } => format!("text_append_{}", ["duplicate_value_line", "extra_line", "concatenated_file", "unterminated_extra_value"][*kind as usize % 4]),
